@@ -143,7 +143,7 @@ func verifLLMuxer() (*Muxer, *Track) {
 	tr := verifVideoTrack()
 	m := &Muxer{
 		Variant:            MuxerVariantLowLatency,
-		SegmentCount:       7,
+		SegmentCount:       verifParam("SEGCOUNT", 7),
 		SegmentMinDuration: time.Duration(verifParam("SEGMIN_MS", 1000)) * time.Millisecond,
 		PartMinDuration:    time.Duration(verifParam("PARTMIN_MS", 200)) * time.Millisecond,
 		Tracks:             []*Track{tr},
